@@ -214,6 +214,70 @@ let mutate r (b : byte list) : byte list * string =
   | 8 -> (rbytes r (pick r [| 0; 1; 3; 4; 5; 8; 16; 33 |]), "mal_random")
   | _ -> (b @ rbytes r (1 + rint r 8), "mal_extended")
 
+(* ---- non-monotone end offsets and the overlap bomb (malformed; S = "-": model vs implementation) ---- *)
+let le32 (v : int) : byte list = le_enc (nat_of_int 4) (zi v)
+let get_i (b : byte list) (off : int) : int = ZA.to_int (get_u32 b off)
+let zeros_n n = List.init n (fun _ -> byte_of_int 0)
+(* running end offset before entry i, as parseJSONB's walk (and endOffset) compute it *)
+let run_before (b : byte list) (i : int) : int =
+  let run = ref 0 in
+  for j = 0 to i - 1 do
+    let e = get_i b (4 + 4 * j) in
+    let v = e land 0x0FFFFFFF in
+    if e land 0x80000000 <> 0 then run := v else run := !run + v
+  done;
+  !run
+(* a VALID container around the container image c: array [string, c, null] or object {key: c} *)
+let wrap r (c : byte list) : byte list =
+  let lc = List.length c in
+  if rbool r then begin
+    let s = gen_utf8 r (rint r 7) in
+    let ls = List.length s in
+    let pad = (4 - ((16 + ls) land 3)) land 3 in
+    le32 (0x40000000 lor 3) @ le32 (0x80000000 lor ls) @ le32 (0x50000000 lor (pad + lc)) @ le32 0x40000000
+    @ s @ zeros_n pad @ c
+  end else begin
+    let key = gen_utf8 r (1 + rint r 6) in
+    let lk = List.length key in
+    let pad = (4 - ((12 + lk) land 3)) land 3 in
+    le32 (0x20000000 lor 1) @ le32 (0x80000000 lor lk) @ le32 (0x50000000 lor (pad + lc))
+    @ key @ zeros_n pad @ c
+  end
+let fixed_doc = JArr [ JStr (bytes_of_string "ab"); JNum (u16le 0x8000 @ u16le 7); JArr [ JNull; JStr (bytes_of_string "xyz") ]; JStr (bytes_of_string "cde") ]
+(* one JEntry of a valid container replaced by HAS_OFF | v with v below / at / above the running end offset *)
+let nonmono_doc r (k : int) : byte list * string =
+  let (j, _) = gen_doc r (pick r [| 2; 4; 5; 6; 8; 9; 10; 11 |]) in
+  let nent_of b = let hdr = get_i b 0 in let c = hdr land 0x0FFFFFFF in if hdr land 0x20000000 <> 0 then 2 * c else c in
+  let b0 = if wf_jsonb j && nent_of (enc_jsonb j) >= 3 && List.length (enc_jsonb j) < 3000 then enc_jsonb j else enc_jsonb fixed_doc in
+  let nent = nent_of b0 in
+  let (i, pos) = (match k mod 4 with 0 -> (0, "first") | 1 -> (1, "second") | 2 -> (nent / 2, "mid") | _ -> (nent - 1, "last")) in
+  let run = run_before b0 i in
+  let e = get_i b0 (4 + 4 * i) in
+  let (v, var) = (match (k / 4) mod 5 with
+      | 0 -> (0, "zero")
+      | 1 -> (max 0 (run - 1), "below")
+      | 2 -> (run, "equal")
+      | 3 -> ((if run > 0 then rint r run else 0), "rand")
+      | _ -> (run_before b0 (i + 1), "valid")) in
+  let b = set_u32 b0 (4 + 4 * i) (ZA.of_int ((e land 0x70000000) lor 0x80000000 lor (v land 0x0FFFFFFF))) in
+  let (b, nest) = (match (k / 20) mod 3 with 0 -> (b, "n0") | 1 -> (wrap r b, "n1") | _ -> (wrap r (wrap r b), "n2")) in
+  (b, Printf.sprintf "nonmono_%s_%s_%s" pos var nest)
+(* the overlap bomb: [container of length L, null with HAS_OFF value 0, container of length L] over the SAME L
+   bytes, nested d times: 4 + 16 d bytes, 2^d decodes in the unrepaired code *)
+let rec bomb d = if d = 0 then le32 0x40000000 else begin
+    let c = bomb (d - 1) in let l = List.length c in
+    le32 (0x40000000 lor 3) @ le32 (0x50000000 lor l) @ le32 (0x80000000 lor 0x40000000) @ le32 (0x50000000 lor l) @ c end
+(* its well-formed twin: the null's stored end offset is L and the two containers have their own bytes *)
+let rec twin d = if d = 0 then le32 0x40000000 else begin
+    let c = twin (d - 1) in let l = List.length c in
+    le32 (0x40000000 lor 3) @ le32 (0x50000000 lor l) @ le32 (0x80000000 lor 0x40000000 lor l) @ le32 (0x50000000 lor l) @ c @ c end
+let bomb_doc r (q : int) : byte list * string =
+  let d = 2 + q mod 11 in
+  match (q / 11) mod 3 with
+  | 0 -> (bomb d, Printf.sprintf "bomb_d%d" d)
+  | 1 -> (wrap r (bomb d), Printf.sprintf "bomb_wrapped_d%d" d)
+  | _ -> let d = 2 + q mod 4 in (twin d, Printf.sprintf "twin_d%d" d)
+
 (* ---- helper functions on entry arrays ---- *)
 let prefix_sums (ls : int list) : int list =
   List.rev (snd (List.fold_left (fun (acc, out) l -> (acc + l, (acc + l) :: out)) (0, []) ls))
@@ -299,6 +363,10 @@ let gen_case r k =
       let (j, _) = gen_doc r (8 + rint r 8) in
       let (b, tag) = mutate r (enc_jsonb j) in
       run_decode ~tag ~s:"-" b (tail_for r) end
+  | 15 when (k / 20) mod 4 <> 1 ->
+    let q = k / 20 in
+    let (b, tag) = (match q mod 4 with 3 -> bomb_doc r (q / 4) | _ -> nonmono_doc r (q / 4 * 2 + (if q mod 4 = 2 then 1 else 0))) in
+    if q mod 8 = 2 then run_decode ~tag ~s:"-" b (tail_for r) else run_parse ~tag ~s:"-" b (tail_for r)
   | 19 | 15 ->
     let (j, _) = gen_doc r (rint r 16) in
     let (b, tag) = mutate r (enc_jsonb j) in
